@@ -30,13 +30,28 @@ def run_ent(rng, sub, ses, task, run, space):
             'space': space, 'desc': 'preproc', 'modality': 'func', 'suffix': 'bold', 'ext': 'nii.gz'}
 
 
-def tree_case(rng, shape, tasks=None):
+def cf_choice(rng, form=None):
+    """requested confound names: None / [] (both mean the default nine), a subset in any order,
+    the whole list reversed, or a list naming a column the table does not have"""
+    form = form or rng.choice(['none', 'subset', 'subset', 'empty', 'reversed', 'missing'])
+    if form == 'none':
+        return None
+    if form == 'empty':
+        return []
+    if form == 'reversed':
+        return CF[::-1]
+    if form == 'missing':
+        return [rng.choice(CF), 'framewise_displacement']
+    return rng.sample(CF, 3)
+
+
+def tree_case(rng, shape, tasks=None, cf=None):
     """shape: list of (ses?, task?, run?, space?) presence tuples, one per run"""
     runs, seen = [], set()
     subs = [label(rng).replace('.', '') for _ in range(2)]
     task_pool = ['rest', 'main', 'loc', 'nback']
     for k, (has_ses, has_task, has_run, has_space) in enumerate(shape):
-        e = run_ent(rng, subs[k % 2], ('0%d' % (1 + k % 2)) if has_ses else None,
+        e = run_ent(rng, subs[k % 2], ('0%d' % (1 + (k // 2) % 2)) if has_ses else None,
                     task_pool[k % 4] if has_task else None,
                     str(1 + k // 2) if has_run else None,
                     rng.choice(['MNI152', 'T1w']) if has_space else None)
@@ -46,17 +61,17 @@ def tree_case(rng, shape, tasks=None):
             runs.append(e)
     return {'kind': 'tree', 'runs': runs, 'tasks': tasks,
             'masked': rng.random() < 0.5, 'collapse': rng.random() < 0.5,
-            'cf_names': None if rng.random() < 0.5 else rng.sample(CF, 3)}
+            'cf_names': cf_choice(rng, cf)}
 
 
 def gen(rng, tier):
     k = 1 if tier == 'quick' else 10
     # directed skeleton
-    yield tree_case(rng, [(1, 1, 1, 1), (0, 1, 1, 0)])                       # full / no session
-    yield tree_case(rng, [(0, 1, 0, 0), (1, 0, 1, 1)])                       # task w/o run, run w/o task
-    yield tree_case(rng, [(0, 0, 0, 0)])                                     # bare
-    yield tree_case(rng, [(1, 1, 1, 1)] * 4, tasks=['main', 'rest'])         # task filter, order of tasks
-    yield tree_case(rng, [(0, 1, 1, 0)] * 3, tasks=['nothere'])              # nothing found
+    yield tree_case(rng, [(1, 1, 1, 1), (0, 1, 1, 0)], cf='none')            # full / no session
+    yield tree_case(rng, [(0, 1, 0, 0), (1, 0, 1, 1)], cf='empty')           # task w/o run, run w/o task
+    yield tree_case(rng, [(0, 0, 0, 0)], cf='missing')                       # bare
+    yield tree_case(rng, [(1, 1, 1, 1)] * 4, tasks=['main', 'rest'], cf='reversed')   # task filter, order of tasks
+    yield tree_case(rng, [(0, 1, 1, 0)] * 3, tasks=['nothere'], cf='subset')  # nothing found
     c = tree_case(rng, [(0, 1, 1, 0)])
     c['no_derivative'] = True
     yield c
@@ -78,8 +93,11 @@ def layout(case):
         files[fmt(dict(e, desc='confounds', suffix='timeseries', ext='tsv', space=None))] = 'confounds'
         files[fmt(dict(e, desc='brain', suffix='mask'))] = 'mask'
         files[fmt(dict(e, desc='aparcaseg', suffix='dseg'))] = 'parc'
-        # distractors the search must not return
+        # distractors the search must not return: another suffix without desc, the same name in
+        # another derivative and in the raw tree
         files[fmt(dict(e, desc=None, suffix='boldref'))] = 'other'
+        files[fmt(dict(e, derivative='other-pipe'))] = 'other'
+        files[fmt(dict(e, derivative=None))] = 'other'
     files[KEY] = 'key'
     return files
 
@@ -116,7 +134,7 @@ def build(case):
                 json.dump({'id': pid, 'RepetitionTime': 2.0}, fh)
             elif kind == 'events':
                 fh.write('onset\tduration\ttrial_type\n')
-                for i, tt in enumerate([f'p{pid}a', f'p{pid}b', f'p{pid}a']):
+                for i, tt in enumerate([f'p{pid}b', f'p{pid}a', f'p{pid}b']):
                     fh.write(f'{10 * i}\t5\t{tt}\n')
             elif kind == 'confounds':
                 fh.write('\t'.join(CF) + '\n')
@@ -194,11 +212,13 @@ def impl(case):
 def requests(case):
     files = [p for p in sorted(layout(case))
              if not (case.get('no_derivative') and p.startswith('derivatives'))]
-    return [{'op': 'c20.tree', 'files': files, 'derivative': 'fmriprep', 'desc': 'preproc_bold',
-             'tasks': case['tasks']}]
+    # the derivative / description searched for and the desc / suffix of every sibling are the
+    # model's own (regenerated from the source); the table's column names are the file's
+    return [{'op': 'c20.tree', 'files': files, 'tasks': case['tasks'],
+             'cf_names': case['cf_names'], 'cf_table': CF}]
 
 
-def expected_view(case, path, descriptors, paths):
+def expected_view(case, path, descriptors, paths, cols):
     """what the accessors must return when they read the files at `paths` (name -> relpath)"""
     kinds, pids = layout(case), pid_of(case)
     if case.get('no_derivative'):
@@ -213,12 +233,11 @@ def expected_view(case, path, descriptors, paths):
     pid = read('meta', None)
     out['meta'] = pid if pid is not None else {'exc': 'FileNotFoundError'}
     pid = read('events', None)
-    tt = None if pid is None else [f'p{pid}a', f'p{pid}b', f'p{pid}a']
+    tt = None if pid is None else [f'p{pid}b', f'p{pid}a', f'p{pid}b']
     out['events'] = tt if tt else {'exc': 'FileNotFoundError'}
     pid = read('confounds', None)
-    names = case['cf_names'] or CF
-    out['confounds'] = {'exc': 'FileNotFoundError'} if pid is None else \
-        {'columns': names, 'first': [pid + float(CF.index(n)) for n in names]}
+    out['confounds'] = {'exc': 'FileNotFoundError'} if pid is None else cols if isinstance(cols, dict) \
+        else {'columns': cols, 'first': [pid + float(CF.index(n)) for n in cols]}
     mask = read('mask', 'mask')
     parc = read('parc', 'parc')
     bold = array_of('bold', pids[path]) if path in pids else None
@@ -259,7 +278,8 @@ def result(case, answers):
             out.append(r)
             continue
         v = expected_view(case, r['path'], r['descriptors'],
-                          {k: r[k] for k in ('meta', 'events', 'confounds', 'mask', 'parc', 'key')})
+                          {k: r[k] for k in ('meta', 'events', 'confounds', 'mask', 'parc', 'key')},
+                          r['confound_cols'])
         v.update(sub=r['ent']['sub'], ses=r['ent']['ses'], run=r['ent']['run'],
                  repr='<FmriprepRun [%s]>' % r['repr'])
         out.append(v)
@@ -293,7 +313,9 @@ def oracle(case):
                  'confounds': fmt(dict(e, desc='confounds', suffix='timeseries', ext='tsv', space=None)),
                  'mask': fmt(dict(e, desc='brain', suffix='mask')),
                  'parc': fmt(dict(e, desc='aparcaseg', suffix='dseg')), 'key': KEY}
-        exp = expected_view(case, fmt(e), descs, paths)
+        names = case['cf_names'] or CF
+        exp = expected_view(case, fmt(e), descs, paths,
+                            names if all(n in CF for n in names) else {'exc': 'KeyError'})
         for k in ('meta', 'events', 'confounds', 'mask', 'parc', 'obs', 'channel', 'data'):
             if r[k] != exp[k]:
                 return {'what': f'{k}: the accessor did not return the content of the sibling file of its run',
@@ -316,9 +338,19 @@ def feats(case, impl_res):
             b.append('tree:run_without_task')
         if e['ses'] is not None:
             b.append('tree:ses')
+    by_sub = {}
+    for e in case['runs']:
+        if e['ses'] is not None:
+            by_sub.setdefault(e['sub'], set()).add(e['ses'])
+    if any(len(v) > 1 for v in by_sub.values()):
+        b.append('tree:two_sessions')
     b.append('tree:masked' if case['masked'] else 'tree:unmasked')
+    cf = case['cf_names']
+    b.append('tree:cf_default' if cf is None else 'tree:cf_empty' if cf == [] else
+             'tree:cf_missing' if any(n not in CF for n in cf) else 'tree:cf_named')
     return {'kind': 'tree', 'tree_tasks': case['tasks'] is not None, 'branches': sorted(set(b))}
 
 
 BRANCHES = ['tree:search', 'tree:tasks', 'tree:no_derivative', 'tree:empty', 'tree:task_without_run',
-            'tree:run_without_task', 'tree:ses']
+            'tree:run_without_task', 'tree:ses', 'tree:cf_default', 'tree:cf_empty', 'tree:cf_missing',
+            'tree:cf_named', 'tree:two_sessions']
